@@ -122,6 +122,7 @@ class Tree:
     def files(self):
         """(path, ino) of every regular file reachable through physical (parent) edges"""
         out = []
+        seen = {self.root}
 
         def rec(i, prefix):
             for name, t in self.nodes[i]['ents']:
@@ -130,7 +131,8 @@ class Tree:
                 n = self.nodes[t]
                 p = prefix + name
                 if n['k'] == 'd':
-                    if n['parent'] == i:
+                    if n['parent'] == i and t not in seen:
+                        seen.add(t)
                         rec(t, p + '/')
                 elif n['k'] == 'f':
                     out.append((p, t))
@@ -395,13 +397,15 @@ class FaultInjector:
                 super().close()
 
         def f_bopen(file, mode='r', *a, **k):
+            if FaultInjector.suspended:
+                return b_open(file, mode, *a, **k)
             if isinstance(file, int):
                 st = o_fstat(file)
                 ident = (st.st_dev, st.st_ino)
             else:
                 ident = ident_of(file)
                 if 'r' in mode and ident is not None:
-                    en = faults.get(('open', ident))
+                    en = faults.get(('open', ident)) or faults.get(('mopen', ident))
                     if en is not None:
                         code = ERRNO_NAMES.get(en, errno.EIO)
                         raise OSError(code, os.strerror(code), file)
